@@ -316,6 +316,8 @@ type Facts struct {
 	Quantile  bool   `json:"quantile,omitempty"`
 	// a label_format stage in the pipeline handed to the ClickHouse planners
 	LabelFormat bool `json:"label_format,omitempty"`
+	// the vector aggregation carries no by/without clause (LogQL: one series with the empty label set)
+	AggNoGrouping bool `json:"agg_no_grouping,omitempty"`
 }
 
 func scriptFacts(s *logql_parser.LogQLScript) *Facts {
@@ -341,6 +343,7 @@ func scriptFacts(s *logql_parser.LogQLScript) *Facts {
 	}
 	if agg != nil {
 		f.AggFn = agg.Fn
+		f.AggNoGrouping = agg.ByOrWithoutPrefix == nil && agg.ByOrWithoutSuffix == nil
 		lra = &agg.LRAOrUnwrap
 	}
 	if lra != nil {
